@@ -440,6 +440,14 @@ func (e *Exec) external(fr *Frame, st State, fn *ssa.Function, args []Val, pos t
 	}
 	e.assumed["assumed contract: "+name] = true
 	switch name {
+	case "math.Float32bits", "math.Float64bits", "math.Float32frombits", "math.Float64frombits",
+		"(encoding/binary.bigEndian).Uint16", "(encoding/binary.bigEndian).Uint32", "(encoding/binary.bigEndian).Uint64",
+		"(encoding/binary.bigEndian).PutUint16", "(encoding/binary.bigEndian).PutUint32", "(encoding/binary.bigEndian).PutUint64":
+		// modelled exactly
+	default:
+		e.abstractions++
+	}
+	switch name {
 	case "errors.New":
 		s, v := e.freshError(st, "new")
 		return []Outcome{{st: s, ret: v}}
